@@ -75,6 +75,62 @@ impl F {
         }
     }
 
+    /// strong Kleene evaluation under a three-valued assignment (0 = false, 1 = true, 2 = undecided). For a
+    /// read-once formula (every atom occurs at most once) this is exactly the value shared by all completions,
+    /// i.e. the three-valued consequence operator; in general it is only a lower bound on the information.
+    pub fn kleene(&self, asg: &dyn Fn(usize) -> u8) -> u8 {
+        let not = |x: u8| match x {
+            0 => 1,
+            1 => 0,
+            _ => 2,
+        };
+        let and = |x: u8, y: u8| {
+            if x == 0 || y == 0 {
+                0
+            } else if x == 1 && y == 1 {
+                1
+            } else {
+                2
+            }
+        };
+        let or = |x: u8, y: u8| not(and(not(x), not(y)));
+        match self {
+            F::Top => 1,
+            F::Bot => 0,
+            F::Atom(i) => asg(*i),
+            F::Not(a) => not(a.kleene(asg)),
+            F::And(a, b) => and(a.kleene(asg), b.kleene(asg)),
+            F::Or(a, b) => or(a.kleene(asg), b.kleene(asg)),
+            F::Imp(a, b) => or(not(a.kleene(asg)), b.kleene(asg)),
+            F::Xor(a, b) => {
+                let (x, y) = (a.kleene(asg), b.kleene(asg));
+                if x == 2 || y == 2 {
+                    2
+                } else {
+                    (x != y) as u8
+                }
+            }
+            F::Iff(a, b) => {
+                let (x, y) = (a.kleene(asg), b.kleene(asg));
+                if x == 2 || y == 2 {
+                    2
+                } else {
+                    (x == y) as u8
+                }
+            }
+        }
+    }
+
+    /// every atom occurs at most once
+    pub fn read_once(&self) -> bool {
+        let mut v = Vec::new();
+        self.atoms(&mut v);
+        let mut w = v.clone();
+        w.sort_unstable();
+        w.dedup();
+        w.len() == v.len()
+    }
+
     /// truth table over n variables (atom i = variable i)
     pub fn tt(&self, n: usize) -> TT {
         match self {
